@@ -23,6 +23,10 @@ func (s S0) valA() uint64 {
 	return s.a + 1
 }
 
+func (s *S0) add2m(x uint64, y uint64) uint64 {
+	return s.a + x*3 + y
+}
+
 '''
 
 HELPERS_REST = '''
@@ -199,6 +203,9 @@ STMTS = {
     "tuple-assign-fields-of-one-struct": "tj := &S0{a: 1}\nvar tb uint64\ntj.a, tb = two()\nacc += tj.a + tb",
     "tuple-assign-pointer-then-store": "tp := new(uint64)\ntq := new(uint64)\nvar tr *uint64 = tp\ntr, *tr = tq, 5\nacc += *tp + *tq + *tr",
     "function-field-as-value": "h0 := &H0{cb: id, n: 4}\nhf := h0.cb\nacc += hf(h0.n) + add2(h0.cb(1), 2)",
+    "multi-value-call-as-method-arguments": "pq := &S0{a: 1}\nacc += pq.add2m(two())",
+    "funclit-blank-named-result": "fb := func() (_ uint64) {\n\treturn\n}\nacc += fb() + 1",
+    "funclit-two-blank-named-results": "fc := func(t bool) (_, _ uint64) {\n\tif t {\n\t\treturn 1, 2\n\t}\n\treturn\n}\nf1, f2 := fc(acc > 100000)\nacc += f1 + f2 + 1",
     "bool-to-var-opassign": "var bo uint64 = 6\nbo |= 9\nbo &= 12\nbo ^= 5\nacc += bo",
 }
 
@@ -223,6 +230,7 @@ DECLS = {
     "param-named-len": ("func callLen_HOLE(len func([]uint64) uint64) uint64 {\n\ts := make([]uint64, 2)\n\treturn len(s)\n}\n\nfunc seven_HOLE(s []uint64) uint64 {\n\treturn 7\n}\n",
                         "(a uint64, b uint64) uint64 {\n\treturn callLen_HOLE(seven_HOLE) + a\n}"),
     "named-results": ("", "(a uint64, b uint64) (r uint64) {\n\tr = a + 1\n\treturn\n}"),
+    "blank-named-result": ("func blankres_HOLE() (_ uint64) {\n\treturn\n}\n", "(a uint64, b uint64) uint64 {\n\treturn blankres_HOLE() + a + 1\n}"),
     "named-results-explicit": ("", "(a uint64, b uint64) (r uint64) {\n\tr = a + 1\n\treturn r + b\n}"),
     "variadic-declared": ("", "(a uint64, b uint64) uint64 {\n\treturn sum3(a, b)\n}"),
     "unnamed-params": ("func first_HOLE(uint64, uint64) uint64 {\n\treturn 4\n}\n", "(a uint64, b uint64) uint64 {\n\treturn first_HOLE(a, b)\n}"),
